@@ -236,4 +236,108 @@ theorem pv_inert (fs : FS) (h : Inert fs.pj) : fs.pv = fs.pd :=
 theorem crashP_inert (fs : FS) (h : Inert fs.pj) (mode : CrashMode) : fs.crashP mode = fs.pd :=
   isImg_inert fs.pj h fs.pd _ (crashP_isImg fs mode)
 
+/-! ### an injected I/O error at step k -/
+
+/-- the error-path steps of the k-th I/O action -/
+def onFailAt : List Action → Nat → List Step
+  | [], _ => []
+  | .io _ f :: _, 0 => f
+  | .io _ _ :: rest, k + 1 => onFailAt rest k
+  | .fail _ :: _, _ => []
+  | .mem _ :: rest, k => onFailAt rest k
+
+/-- the memory updates performed before the k-th I/O action -/
+def memBefore : List Action → Nat → List MemUpd
+  | [], _ => []
+  | .io _ _ :: _, 0 => []
+  | .io _ _ :: rest, k + 1 => memBefore rest k
+  | .fail _ :: _, _ => []
+  | .mem u :: rest, k => u :: memBefore rest k
+
+theorem runActs_fault (acts : List Action) (k n : Nat) (fs : FS) (m : Mem) (log : List Step)
+    (hk : n ≤ k) (hlt : k - n < (ioSteps acts).length) :
+    (runActs acts (.faultAt k) n fs m log).err = some .io ∧
+    (runActs acts (.faultAt k) n fs m log).dead = false ∧
+    (runActs acts (.faultAt k) n fs m log).fs = (fs.steps ((ioSteps acts).take (k - n))).steps (onFailAt acts (k - n)) ∧
+    (runActs acts (.faultAt k) n fs m log).mem = (memBefore acts (k - n)).foldl applyUpd m := by
+  induction acts generalizing n fs m log with
+  | nil => simp [ioSteps] at hlt
+  | cons a acts ih =>
+    cases a with
+    | io s f =>
+      simp only [runActs]
+      by_cases hnk : n = k
+      · subst hnk; simp [FS.steps, onFailAt, memBefore, ioSteps]
+      · simp only [hnk, if_false]
+        have h1 : k - n = (k - (n + 1)) + 1 := by omega
+        have := ih (n + 1) (fs.step s) m (s :: log) (by omega) (by simp [ioSteps] at hlt; omega)
+        rw [h1]
+        simpa [ioSteps, FS.steps, onFailAt, memBefore] using this
+    | mem u =>
+      have := ih n fs (applyUpd m u) log hk (by simpa [ioSteps] using hlt)
+      simpa [runActs, ioSteps, onFailAt, memBefore] using this
+    | fail e => simp [ioSteps] at hlt
+
+theorem run_fault (acts : List Action) (k : Nat) (fs : FS) (m : Mem) (hlt : k < (ioSteps acts).length) :
+    (run acts (.faultAt k) fs m).err = some .io ∧
+    (run acts (.faultAt k) fs m).fs = (fs.steps ((ioSteps acts).take k)).steps (onFailAt acts k) ∧
+    (run acts (.faultAt k) fs m).mem = (memBefore acts k).foldl applyUpd m := by
+  have := runActs_fault acts k 0 fs m [] (Nat.zero_le _) (by simpa using hlt)
+  simpa [run] using ⟨this.1, this.2.2.1, this.2.2.2⟩
+
+theorem onFailAt_append_left (a b : List Action) (k : Nat) (h : k < (ioSteps a).length) :
+    onFailAt (a ++ b) k = onFailAt a k := by
+  induction a generalizing k with
+  | nil => simp [ioSteps] at h
+  | cons x a ih =>
+    cases x with
+    | io s f =>
+      cases k with
+      | zero => rfl
+      | succ k => simpa [onFailAt] using ih k (by simpa [ioSteps] using h)
+    | mem u => simpa [onFailAt] using ih k (by simpa [ioSteps] using h)
+    | fail e => simp [ioSteps] at h
+
+theorem onFailAt_append_right (a b : List Action) (k : Nat) (hf : failOf a = none) :
+    onFailAt (a ++ b) ((ioSteps a).length + k) = onFailAt b k := by
+  induction a with
+  | nil => simp [ioSteps]
+  | cons x a ih =>
+    cases x with
+    | io s f =>
+      have := ih (by simpa [failOf] using hf)
+      simp only [List.cons_append, ioSteps, List.length_cons]
+      rw [show (ioSteps a).length + 1 + k = ((ioSteps a).length + k) + 1 by omega]
+      simpa [onFailAt] using this
+    | mem u => simpa [onFailAt, ioSteps] using ih (by simpa [failOf] using hf)
+    | fail e => simp [failOf] at hf
+
+theorem memBefore_append_left (a b : List Action) (k : Nat) (h : k < (ioSteps a).length) :
+    memBefore (a ++ b) k = memBefore a k := by
+  induction a generalizing k with
+  | nil => simp [ioSteps] at h
+  | cons x a ih =>
+    cases x with
+    | io s f =>
+      cases k with
+      | zero => rfl
+      | succ k => simpa [memBefore] using ih k (by simpa [ioSteps] using h)
+    | mem u => simpa [memBefore] using ih k (by simpa [ioSteps] using h)
+    | fail e => simp [ioSteps] at h
+
+theorem memBefore_append_right (a b : List Action) (k : Nat) (hf : failOf a = none) :
+    memBefore (a ++ b) ((ioSteps a).length + k) = memUpds a ++ memBefore b k := by
+  induction a with
+  | nil => simp [ioSteps, memUpds]
+  | cons x a ih =>
+    cases x with
+    | io s f =>
+      have := ih (by simpa [failOf] using hf)
+      simp only [List.cons_append, ioSteps, List.length_cons, memUpds]
+      rw [show (ioSteps a).length + 1 + k = ((ioSteps a).length + k) + 1 by omega]
+      simpa [memBefore] using this
+    | mem u => simpa [memBefore, ioSteps, memUpds] using ih (by simpa [failOf] using hf)
+    | fail e => simp [failOf] at hf
+
+
 end Nervus.Crash
